@@ -1,6 +1,8 @@
 import Driver.Scenario
 import Driver.PerTestDrv
 import Driver.MocksDrv
+import Driver.CmpDrv
+import Driver.DblDrv
 open Cgreen.Drv
 
 /-- Read all of stdin as lines. -/
@@ -28,6 +30,12 @@ def main (args : List String) : IO UInt32 := do
     for b in blocks lines do
       for l in Cgreen.Drv.PT.runPerTest b do out.putStrLn l
       out.putStrLn "---"
+    return 0
+  | ["dbl"] =>
+    for l in lines do out.putStrLn (Cgreen.Drv.DB.evalLine l)
+    return 0
+  | ["cmp"] =>
+    for l in lines do out.putStrLn (Cgreen.Drv.CM.evalLine l)
     return 0
   | ["mockspec"] =>
     for b in blocks lines do
